@@ -47,6 +47,7 @@ func exprString(fset *token.FileSet, e ast.Expr) string {
 func main() {
 	repo := flag.String("repo", "/repo", "repository root")
 	out := flag.String("out", "", "output directory")
+	shims := flag.String("shims", "", "directory of shim files to add to repository packages")
 	flag.Parse()
 	targets := flag.Args()
 	if *out == "" || len(targets) == 0 {
@@ -141,6 +142,51 @@ func main() {
 		}
 		replace[f] = dst
 		sites += n
+	}
+	// optional seams: <shims>/*.seam = {"file","old","new"}: one exact textual replacement in a repository file
+	if *shims != "" {
+		ents, _ := os.ReadDir(*shims)
+		for _, e := range ents {
+			if e.IsDir() || !strings.HasSuffix(e.Name(), ".seam") {
+				continue
+			}
+			raw, err := os.ReadFile(filepath.Join(*shims, e.Name()))
+			if err != nil {
+				continue
+			}
+			var sm struct{ File, Old, New string }
+			if json.Unmarshal(raw, &sm) != nil {
+				fmt.Fprintf(os.Stderr, "seam-missing: %s does not parse\n", e.Name())
+				os.Exit(3)
+			}
+			target := filepath.Join(*repo, sm.File)
+			srcPath := target
+			if r, ok := replace[target]; ok {
+				srcPath = r
+			}
+			src, err := os.ReadFile(srcPath)
+			if err != nil || strings.Count(string(src), sm.Old) != 1 {
+				fmt.Fprintf(os.Stderr, "seam-missing: %s: text not found exactly once in %s\n", e.Name(), sm.File)
+				os.Exit(3)
+			}
+			dst := filepath.Join(*out, strings.ReplaceAll(sm.File, "/", "__"))
+			if err := os.WriteFile(dst, []byte(strings.Replace(string(src), sm.Old, sm.New, 1)), 0o644); err != nil {
+				fmt.Fprintln(os.Stderr, err)
+				os.Exit(2)
+			}
+			replace[target] = dst
+		}
+	}
+	// optional shim files: <shims>/<path with __ for />.go is added as <repo>/<path>.go
+	if *shims != "" {
+		ents, _ := os.ReadDir(*shims)
+		for _, e := range ents {
+			if e.IsDir() || !strings.HasSuffix(e.Name(), ".go") {
+				continue
+			}
+			rel := strings.ReplaceAll(e.Name(), "__", "/")
+			replace[filepath.Join(*repo, rel)] = filepath.Join(*shims, e.Name())
+		}
 	}
 	rtp := filepath.Join(*out, "verifrt_rt.go")
 	os.WriteFile(rtp, []byte(rt), 0o644)
